@@ -39,15 +39,26 @@ CHECKS = {
              "for url_aggregator::consume_prepared_path in C07; fast_path_sound - parser::try_parse_simple_absolute (the single-pass "
              "shortcut for normalized absolute http(s) URLs, Model/SimpleAbs.lean) accepts only what the Standard's parser "
              "accepts and writes exactly the Standard's record (800 lines; both instantiations are called directly on every "
-             "run, the aggregator's buffer and offsets compared with the layout of the modelled fields); ada's perfect-hash "
-             "scheme lookup equals list lookup. L1: the "
+             "run, the aggregator's buffer and offsets compared with the layout of the modelled fields); "
+             "parser_no_base_partial - Model/ParseSpecial.lean transcribes the state machine parse_url_impl<ada::url>(input, nullptr) "
+             "for every scheme but file (tab/newline removal, trimming, prune_hash, SCHEME_START, SCHEME, "
+             "SPECIAL_AUTHORITY_SLASHES, SPECIAL_AUTHORITY_IGNORE_SLASHES, PATH_OR_AUTHORITY, the AUTHORITY loop over several "
+             "'@', HOST with get_host_delimiter_location and parse_host, PORT with parse_port's trailing check, PATH_START, "
+             "PATH, OPAQUE_PATH, QUERY, fragment, fast path in front) and it answers exactly Spec.parse's record, failure for "
+             "failure and field for field (1200 lines), under the bracket side condition below; ada's perfect-hash "
+             "scheme lookup equals list lookup. L1: the state-machine model is run against ada::parse<ada::url> on generated "
+             "inputs with the real IDNA answers as hints; the "
              "Lean path builder is run against the real function (and both shorten_path overloads against each other) on "
              "generated calls. Both URL types are compared with the Spec on generated (input, base) pairs: href, all getters, "
              "origin, opaque flag.",
         design_ref="DESIGN.md §5 C01, §11.3",
-        note="partial: of parse_url_impl the path builder, the scheme lookup, the fast path try_parse_simple_absolute (and, in "
-             "C08, the can_parse scanner; in C10, parse_host and the IP kernels) are modelled and proved; the state machine "
-             "around them is compared with the Spec, not modelled. Spec.parse is a hand transcription of the Standard (trusted, validated by WPT). "
+        note="partial: parse_url_impl<ada::url> without a base is modelled and proved equal to Spec.parse for every scheme "
+             "but file, under one side condition (no '/', '?', '\\\\' between a '[' and the next ']' behind the credentials - there "
+             "get_host_delimiter_location and the Standard's host state stop at different places and both fail later; "
+             "bracket_condition_plain: any input without '[' satisfies it) and with ada::idna::to_ascii as a parameter; the "
+             "file states, every input with a base and the url_aggregator instantiation of the state machine are compared "
+             "with the Spec, not modelled (their building blocks - path builder, scheme lookup, fast path, can_parse "
+             "scanner in C08, parse_host and the IP kernels in C10, the aggregator's editors in C07 - are). Spec.parse is a hand transcription of the Standard (trusted, validated by WPT). "
              "IDNA answers inside the Spec come from ada::idna (C06)."),
 
     "C03": dict(
@@ -64,17 +75,20 @@ CHECKS = {
              "and the untouched buffer otherwise (these seven setter models are tied to the real setters call by call in "
              "C07's L1 run). The same end-to-end theorems for ada::url's set_username/set_password/set_port (with "
              "url::parse_port)/set_hash/set_search/set_pathname (with url::parse_path and the proved path builder)/set_protocol "
-             "(with url::parse_scheme<true>) and, partially, set_host/set_hostname (get_host_delimiter_location, file-host branch "
-             "with the localhost rule, parse_host, port part; for values without a '/', '?' or '\\\\' between '[' and ']'): the "
+             "(with url::parse_scheme<true>) and, partially and on both types (url_set_host_end_to_end_partial, "
+             "aggregator_set_host_end_to_end_partial), set_host/set_hostname (get_host_delimiter_location, file-host branch "
+             "with the localhost rule, parse_host, port part, the aggregator's dash-dot removal and roll-back; for values without a "
+             "'/', '?' or '\\\\' between '[' and ']'): the "
              "C++ setter on the object holding a record is the object holding the Standard's result when its href fits "
              "the limit and the untouched object otherwise (Model/UrlSetters.lean, replayed on every real setter step "
              "in C04's and, under limits, C09's runs). Both URL types are compared with the Spec after every step of "
              "generated histories (all getters, origin, flags), failed steps are checked to leave every observable "
              "unchanged, and relative references are resolved against the object a history leaves behind.",
         design_ref="DESIGN.md §5 C03",
-        note="partial: seven of the ten setters are modelled statement by statement on both C++ types and proved end to end, "
-             "the host setters on ada::url only and under the bracket side condition; for set_href and for "
-             "url_aggregator's host setters conformance rests on the correspondence with the validated Spec (differential)."),
+        note="partial: nine of the ten setters are modelled statement by statement on both C++ types and proved end to end, "
+             "the host setters under the bracket side condition (and, on the aggregator, for records whose file host is "
+             "present and whose text behind the credentials does not start with '@'); for set_href "
+             "conformance rests on the correspondence with the validated Spec (differential)."),
     "C04": dict(
         technique="Lean 4 proof that the model of ada::url (get_href fast/general path, get_href_size, get_components) "
                   "computes the aggregator's layout for the same content; model tied to the real ada::url on every state; "
@@ -85,14 +99,15 @@ CHECKS = {
              "aggregator's eight offsets (false on the pinned tree, provable after fixes 32af07f/b6b9d92). The model is "
              "evaluated by the Lean driver on the field values of every real ada::url state and must give the real href, "
              "size and components. Setters: username_agrees / password_agrees / port_agrees / search_agrees / "
-             "hash_agrees / pathname_agrees / protocol_agrees - for every record satisfying the invariants of C19, every value and every limit, the model of "
+             "hash_agrees / pathname_agrees / protocol_agrees / host_agrees_partial - for every record satisfying the invariants of C19, every value and every limit, the model of "
              "ada::url's setter viewed through the layout equals the model of url_aggregator's setter (same buffer, same "
              "offsets, same return value); both setter models are replayed against the real calls. The same (input, "
              "base, history) is applied to ada::url_aggregator and ada::url; after "
              "every operation return value and every observable incl. host kind, opaque flag, href size and the eight "
              "offsets are compared pairwise.",
         design_ref="DESIGN.md §5 C04, §11.3", category="proof",
-        note="Seven setters are modelled on both types and proved to agree; for set_href, set_host and set_hostname "
+        note="Nine setters are modelled on both types and proved to agree (set_host / set_hostname under the bracket side "
+             "condition of C03); for set_href "
              "the agreement of the two types is decided by the lock-step run (differential, "
              "generator-bounded) and by C03's comparison of each type with the Spec."),
     "C05": dict(
@@ -131,8 +146,8 @@ CHECKS = {
         design_ref="DESIGN.md §5 C07, §11.3", category="proof",
         note="partial: update_base_authority, copy_scheme and set_protocol_as_file are exercised through the public API only "
              "(append_base_*, consume_prepared_path and clear_pathname are modelled, proved to commute with the layout and "
-             "called directly in the L1 run; url_aggregator's host setters are modelled on top of the editors and run "
-             "against the real calls, their proof is not finished); the setter layer above the editors is modelled separately (Guard, "
+             "called directly in the L1 run; url_aggregator's host setters are modelled on top of the editors, run "
+             "against the real calls and proved in C03); the setter layer above the editors is modelled separately (Guard, "
              "C03/C09); copy-independence (std::string aliasing) is a runtime fact outside the model."),
     "C09": dict(
         technique="Lean 4: decide over the parser-exit table regenerated from src/parser.cpp + guard-model theorems; "
